@@ -861,6 +861,68 @@ def cross_crate_part(check):
                         broken="correspondence L2 reconcile across crates (theorems TsV.C09.C09_reconcile_*)")
 
 
+def odd_rename_part(check):
+    """type-level serde(rename) values that are not identifiers (a dash, a dot, a leading digit, a blank - XML / wire names): whatever
+    a back end makes of such a name, it makes the same of it where the type is defined and where it is referred to"""
+    rng = check.rng
+    g = mkgen(rng)
+    ts = [m_path("typeshare")]
+    mreqs, rreqs, meta, names = [], [], [], set()
+    for new in ["line-item", "gift.marker", "order-event", "2nd", "with space", "kebab-case-Name", "snake_case_name"]:
+        kinds = rng.sample(["struct", "unit-struct", "tagged", "unit-enum", "alias"], 3)
+        items = []
+        for k, kind in enumerate(kinds):
+            nm = "Renamed%d" % k
+            rn = new + ("%d" % k if k else "")
+            attrs = list(ts) + [m_list("serde", [m_nv("rename", lit_s(rn))] + ([m_nv("tag", lit_s("t")), m_nv("content", lit_s("c"))] if kind == "tagged" else []))]
+            if kind == "struct":
+                items.append({"kind": "struct", "attrs": attrs, "ident": nm, "generics": [], "fields": ("named", [field([], "a", t_path("u8"))])})
+            elif kind == "unit-struct":
+                items.append({"kind": "struct", "attrs": attrs, "ident": nm, "generics": [], "fields": ("unit",)})
+            elif kind == "tagged":
+                items.append({"kind": "enum", "attrs": attrs, "ident": nm, "generics": [],
+                              "variants": [{"attrs": [], "ident": "Added", "fields": ("named", [field([], "n", t_path("u8"))])},
+                                           {"attrs": [], "ident": "Gone", "fields": ("unit",)}]})
+            elif kind == "unit-enum":
+                items.append({"kind": "enum", "attrs": attrs, "ident": nm, "generics": [], "variants": [{"attrs": [], "ident": "A", "fields": ("unit",)}]})
+            else:
+                items.append({"kind": "alias", "attrs": attrs, "ident": nm, "generics": [], "ty": t_path("String")})
+        items.append({"kind": "struct", "attrs": list(ts), "ident": "UserOfThem", "generics": [],
+                      "fields": ("named", [field([], "f%d" % k, t) for k, t in enumerate(
+                          [t_path("Renamed0"), t_path("Vec", [t_path("Renamed1")]), t_path("Option", [t_path("Renamed2")]),
+                           t_path("HashMap", [t_path("String"), t_path("Renamed0")])])])})
+        f = {"attrs": [], "items": items}
+        names |= l2.names_of(f)
+        for lang in LANGS:
+            m, r, texts = l2.requests(lang, cfg_of(lang, ""), [{"crate": "", "file_name": "out", "path": "src/lib.rs", "file": f}], g)
+            mreqs.append(m); rreqs.append(r); meta.append((lang, new, kinds, texts[0]))
+    mans = [l2.norm(a) for a in model(mreqs, names=names)]
+    rans = [l2.norm(a) for a in runner(rreqs)]
+    mismatch = None
+    for (lang, new, kinds, src), ma, ra in zip(meta, mans, rans):
+        check.saw(("odd-rename", lang, new, tuple(kinds)), nontrivial=True)
+        check.count("odd-rename-" + lang)
+        if "ok" in ra:
+            out = ra["ok"].get("", "")
+            for k, kind in enumerate(kinds):
+                rn = new + ("%d" % k if k else "")
+                if lang == "go" and kind in ("tagged", "unit-enum"):
+                    continue                    # Go names enums after the Rust identifier (open finding)
+                variants = {rn, re.sub(r"[^A-Za-z0-9_]", "_", rn), re.sub(r"[^A-Za-z0-9_]", "", rn)}
+                used = sorted(v for v in variants if re.search(r"(?<![A-Za-z0-9_-])%s(?![A-Za-z0-9_-])" % re.escape(v), out))
+                if len(used) > 1:
+                    check.violation("%s: the type renamed to %r is written in %d different spellings (%s): its definition and the references "
+                                    "to it do not agree" % (lang, rn, len(used), used), case={"lang": lang, "source": src}, impl=ra, model=ma, failing_input=True)
+                    return
+        if ma != ra and mismatch is None:
+            mismatch = (lang, src, ma, ra)
+    if mismatch:
+        lang, src, ma, ra = mismatch
+        check.violation("%s generation differs from the model on rename values that are not identifiers" % lang,
+                        case={"lang": lang, "source": src}, impl=ra, model=ma, failing_input=False,
+                        broken="correspondence L2 generate (theorems TsV.C09.*)")
+
+
 def go_acronym_part(check):
     """Go with `uppercase_acronyms`: the acronym pass is applied to definition names and to formatted type strings alike, so
     a type whose name contains a configured acronym must be spelled identically where it is defined and wherever it is
@@ -1023,15 +1085,17 @@ def run(check):
             check.sample({"lang": c["lang"], "prefix": c["pfx"], "source": c["source"], "undefined_references": {k: sorted(v) for k, v in c["expected"].items()}})
     report(check, problems)
     replay_witnesses(check)
-    if not check.violations:
+    if not check.has_failing():
         multi_part(check)
-    if not check.violations:
+    if not check.has_failing():
         cross_crate_part(check)
-    if not check.violations:
+    if not check.has_failing():
+        odd_rename_part(check)
+    if not check.has_failing():
         kotlin_import_part(check)
-    if not check.violations:
+    if not check.has_failing():
         go_acronym_part(check)
-    if not check.violations:
+    if not check.has_failing():
         variant_names_part(check)
     check.assumptions += [
         "scope of the theorems: single-file mode, no type mappings / type overrides / decorators, Go without uppercase_acronyms, "
